@@ -147,9 +147,9 @@ type sysB struct {
 	c        *lab.Chain
 	hDone    []bool
 	bDone    []bool
-	accepted []int  // nodes whose header ProcessBlockHeader accepted, in order of first acceptance
-	inserted []int  // nodes in the order they first appeared in the block index
-	order    []byte // blocks delivered so far
+	accepted []int    // nodes whose header ProcessBlockHeader accepted, in order of first acceptance
+	inserted []int    // nodes in the order they first appeared in the block index
+	order    []byte   // blocks delivered so far
 	fails    []string // "key|what" oracle failures raised by the last applied event
 }
 
